@@ -410,8 +410,10 @@ func extractBufioWriterBuf(bw *bufio.Writer, w io.Writer) []byte {
 	return writeBuf
 }
 
-func (c *Conn) writeError(code StatusCode, err error) {
-	c.writeClose(code, err.Error())
+// writeError fails the connection with a close frame. The frame is written under ctx,
+// the context of the read that found the error, so that the read stays within its bound.
+func (c *Conn) writeError(ctx context.Context, code StatusCode, err error) {
+	c.writeCloseCtx(ctx, code, err.Error())
 	// The connection failed: nothing that follows on the transport may be processed.
 	// See https://tools.ietf.org/html/rfc6455#section-7.1.7
 	// The owner of readMu releases the read resources once it unlocks.
